@@ -772,10 +772,30 @@ type miniBroker struct {
 	resumes  int
 	noAck    bool
 	gateOpen atomic.Bool
+	// slow-resume scenario
+	answerAll    bool               // downstream opens and metadata are answered
+	holdUp       map[uuid.UUID]bool // upstream resume requests of these streams are withheld
+	holdDown     bool               // downstream resume requests are withheld
+	conflictLeft int                // answer this many held-stream resume requests with ResumeRequestConflict first
+	held         []func()           // withheld answers, released by releaseHeld
+	heldSeen     atomic.Int32       // withheld (or conflict-answered) resume requests that reached the broker
+	resumedIDs   map[uuid.UUID]int  // successful upstream resumes per stream
+}
+
+func (m *miniBroker) releaseHeld() {
+	m.mu.Lock()
+	h := m.held
+	m.held = nil
+	m.holdDown = false
+	m.holdUp = nil
+	m.mu.Unlock()
+	for _, f := range h {
+		f()
+	}
 }
 
 func newMiniBroker() *miniBroker {
-	m := &miniBroker{rx: map[uuid.UUID][]uint32{}, aliasOf: map[uint32]uuid.UUID{}}
+	m := &miniBroker{rx: map[uuid.UUID][]uint32{}, aliasOf: map[uint32]uuid.UUID{}, resumedIDs: map[uuid.UUID]int{}}
 	m.gateOpen.Store(true)
 	m.b = broker.New(func(s *broker.Session, msg message.Message) {
 		switch v := msg.(type) {
@@ -794,11 +814,42 @@ func newMiniBroker() *miniBroker {
 			s.Send(&message.UpstreamOpenResponse{RequestID: v.RequestID, AssignedStreamID: id, AssignedStreamIDAlias: alias, ResultCode: message.ResultCodeSucceeded})
 		case *message.UpstreamResumeRequest:
 			m.mu.Lock()
-			m.resumes++
-			alias := uint32(100 + m.resumes)
-			m.aliasOf[alias] = v.StreamID
+			answer := func() {
+				m.mu.Lock()
+				m.resumes++
+				m.resumedIDs[v.StreamID]++
+				alias := uint32(100 + m.resumes)
+				m.aliasOf[alias] = v.StreamID
+				m.mu.Unlock()
+				s.Send(&message.UpstreamResumeResponse{RequestID: v.RequestID, AssignedStreamIDAlias: alias, ResultCode: message.ResultCodeSucceeded})
+			}
+			if m.holdUp[v.StreamID] {
+				m.heldSeen.Add(1)
+				if m.conflictLeft > 0 {
+					m.conflictLeft--
+					m.mu.Unlock()
+					s.Send(&message.UpstreamResumeResponse{RequestID: v.RequestID, ResultCode: message.ResultCodeResumeRequestConflict, ResultString: "conflict"})
+					return
+				}
+				m.held = append(m.held, answer)
+				m.mu.Unlock()
+				return
+			}
 			m.mu.Unlock()
-			s.Send(&message.UpstreamResumeResponse{RequestID: v.RequestID, AssignedStreamIDAlias: alias, ResultCode: message.ResultCodeSucceeded})
+			answer()
+		case *message.DownstreamResumeRequest:
+			answer := func() {
+				s.Send(&message.DownstreamResumeResponse{RequestID: v.RequestID, ResultCode: message.ResultCodeSucceeded})
+			}
+			m.mu.Lock()
+			if m.holdDown {
+				m.heldSeen.Add(1)
+				m.held = append(m.held, answer)
+				m.mu.Unlock()
+				return
+			}
+			m.mu.Unlock()
+			answer()
 		case *message.UpstreamChunk:
 			m.mu.Lock()
 			id := m.aliasOf[v.StreamIDAlias]
@@ -810,8 +861,16 @@ func newMiniBroker() *miniBroker {
 			}
 		case *message.UpstreamCloseRequest:
 			s.Send(&message.UpstreamCloseResponse{RequestID: v.RequestID, ResultCode: message.ResultCodeSucceeded})
-		case *message.DownstreamOpenRequest, *message.UpstreamMetadata:
-			// silent: never answered
+		case *message.DownstreamOpenRequest:
+			if m.answerAll {
+				s.Send(&message.DownstreamOpenResponse{RequestID: v.RequestID, AssignedStreamID: uuid.New(), ResultCode: message.ResultCodeSucceeded, ServerTime: time.Unix(1700000000, 0)})
+			} // else silent: never answered
+		case *message.UpstreamMetadata:
+			if m.answerAll {
+				s.Send(&message.UpstreamMetadataAck{RequestID: v.RequestID, ResultCode: message.ResultCodeSucceeded})
+			}
+		case *message.DownstreamCloseRequest:
+			s.Send(&message.DownstreamCloseResponse{RequestID: v.RequestID, ResultCode: message.ResultCodeSucceeded})
 		}
 	})
 	m.b.OnDial = func(idx int, _ transport.DialConfig) error {
@@ -1045,8 +1104,148 @@ func runDeadlineNeighbour(kind string, deadline time.Duration) (direct string) {
 	return ""
 }
 
+// runSlowResume: after an outage the broker withholds the resume response of ONE stream (a
+// downstream, or an upstream; or answers an upstream's with conflict a few times) while it answers
+// everything else promptly.  Meanwhile the rest of the connection must go on: a new upstream and a
+// new downstream can be opened, metadata can be sent, and the sibling reliable upstream resumes and
+// retransmits its unacknowledged chunk.  Then the withheld answer is released.
+func runSlowResume(variant string) (direct string) {
+	m := newMiniBroker()
+	m.answerAll = true
+	defer m.b.Release()
+	conn, err := iscp.Connect(m.b.Address, broker.TransportName, iscp.WithConnPingInterval(10*time.Millisecond), iscp.WithConnPingTimeout(2*time.Second))
+	if err != nil {
+		return "harness: connect failed: " + err.Error()
+	}
+	defer func() {
+		m.releaseHeld()
+		m.gateOpen.Store(false)
+		go func() {
+			ctx, cancel := context.WithTimeout(context.Background(), time.Second)
+			defer cancel()
+			conn.Close(ctx)
+		}()
+	}()
+	ctx, cancel := context.WithTimeout(context.Background(), 6*wd)
+	defer cancel()
+	a, err := conn.OpenUpstream(ctx, "a", iscp.WithUpstreamFlushPolicyNone(), iscp.WithUpstreamQoS(message.QoSReliable))
+	if err != nil {
+		return "harness: open failed: " + err.Error()
+	}
+	m.mu.Lock()
+	m.noAck = true
+	m.mu.Unlock()
+	if err := a.WriteDataPoints(ctx, &message.DataID{Name: "n1", Type: "t"}, &message.DataPoint{ElapsedTime: 1, Payload: []byte{1}}); err != nil {
+		return "harness: write failed: " + err.Error()
+	}
+	if err := a.Flush(ctx); err != nil {
+		return "harness: flush failed: " + err.Error()
+	}
+	if !broker.WaitFor(wd, func() bool { return len(m.received(a.ID)) == 1 }) {
+		return "harness: first chunk never arrived"
+	}
+	filters := []*message.DownstreamFilter{message.NewDownstreamFilterAllFor("src")}
+	m.mu.Lock()
+	switch variant {
+	case "downstream-withheld":
+		m.holdDown = true
+	}
+	m.mu.Unlock()
+	if variant == "downstream-withheld" {
+		if _, err := conn.OpenDownstream(ctx, filters, iscp.WithDownstreamQoS(message.QoSReliable)); err != nil {
+			return "harness: OpenDownstream failed: " + err.Error()
+		}
+	} else {
+		u2, err := conn.OpenUpstream(ctx, "slow", iscp.WithUpstreamFlushPolicyNone(), iscp.WithUpstreamQoS(message.QoSReliable))
+		if err != nil {
+			return "harness: open failed: " + err.Error()
+		}
+		m.mu.Lock()
+		m.holdUp = map[uuid.UUID]bool{u2.ID: true}
+		if variant == "upstream-conflict" {
+			m.conflictLeft = 3
+		}
+		m.mu.Unlock()
+	}
+	// one outage
+	m.gateOpen.Store(false)
+	m.b.Current().Link.Sever(memtr.Loud)
+	if !broker.WaitFor(wd, func() bool { return m.b.DialCount.Load() > 1 }) {
+		return "the client never noticed the dead link (slow-resume scenario)"
+	}
+	time.Sleep(5 * time.Millisecond)
+	m.mu.Lock()
+	m.noAck = false
+	m.mu.Unlock()
+	m.gateOpen.Store(true)
+	// the slow stream's resume request is at the broker and stays unanswered
+	if !broker.WaitFor(wd, func() bool { return m.heldSeen.Load() >= 1 }) {
+		return "harness: the slow stream sent no resume request"
+	}
+	time.Sleep(10 * time.Millisecond)
+	var bad []string
+	timed := func(what string, limit time.Duration, f func(context.Context) error) {
+		t0 := time.Now()
+		done := make(chan error, 1)
+		go func() {
+			c2, cancel2 := context.WithTimeout(context.Background(), limit)
+			defer cancel2()
+			done <- f(c2)
+		}()
+		select {
+		case err := <-done:
+			if err != nil {
+				bad = append(bad, fmt.Sprintf("%s failed after %v: %v", what, time.Since(t0).Round(time.Millisecond), err))
+			}
+		case <-time.After(limit + time.Second):
+			bad = append(bad, fmt.Sprintf("%s did not return within %v (its context of %v expired long before): it is blocked behind the other stream's pending resume", what, limit+time.Second, limit))
+		}
+	}
+	const lim = 1500 * time.Millisecond // the expectation is ~ms; generous for a loaded machine
+	timed("a new OpenUpstream", lim, func(c2 context.Context) error {
+		_, err := conn.OpenUpstream(c2, "new", iscp.WithUpstreamFlushPolicyNone(), iscp.WithUpstreamQoS(message.QoSReliable))
+		return err
+	})
+	timed("a new OpenDownstream", lim, func(c2 context.Context) error {
+		_, err := conn.OpenDownstream(c2, filters, iscp.WithDownstreamQoS(message.QoSReliable))
+		return err
+	})
+	timed("SendBaseTime", lim, func(c2 context.Context) error {
+		return conn.SendBaseTime(c2, &message.BaseTime{SessionID: "a", Name: "x", BaseTime: time.Unix(1700000000, 0)})
+	})
+	// the sibling reliable upstream resumes and retransmits its unacknowledged chunk while the other answer is pending
+	if !broker.WaitFor(lim, func() bool {
+		m.mu.Lock()
+		n := m.resumedIDs[a.ID]
+		m.mu.Unlock()
+		return n >= 1 && len(m.received(a.ID)) >= 2
+	}) {
+		m.mu.Lock()
+		n := m.resumedIDs[a.ID]
+		m.mu.Unlock()
+		bad = append(bad, fmt.Sprintf("the sibling reliable upstream did not resume and retransmit its unacknowledged chunk within %v while the other stream's resume answer was pending (resumed %d times, chunk received %v)", lim, n, m.received(a.ID)))
+	}
+	m.releaseHeld()
+	if len(bad) > 0 {
+		return fmt.Sprintf("%s: while the broker withheld ONE stream's resume answer after a reconnect, the rest of the connection was stalled: %s", variant, strings.Join(bad, "; "))
+	}
+	// afterwards the sibling still works
+	if err := a.WriteDataPoints(ctx, &message.DataID{Name: "n1", Type: "t"}, &message.DataPoint{ElapsedTime: 2, Payload: []byte{2}}); err != nil {
+		return variant + ": the sibling's write after the resume failed: " + err.Error()
+	}
+	fctx, fcancel := context.WithTimeout(context.Background(), wd)
+	ferr := a.Flush(fctx)
+	fcancel()
+	if ferr != nil || !broker.WaitFor(wd, func() bool { r := m.received(a.ID); return len(r) >= 3 }) {
+		return fmt.Sprintf("%s: the sibling's next chunk did not reach the broker after the resume (flush: %v, received %v)", variant, ferr, m.received(a.ID))
+	}
+	return ""
+}
+
 func runScen(name, arg string, ms int) string {
 	switch name {
+	case "slow-resume":
+		return runSlowResume(arg)
 	case "shared-timer":
 		return runSharedTimer(arg)
 	case "deadline-neighbour":
@@ -1152,7 +1351,7 @@ func main() {
 				Ms       int    `json:"ms"`
 			} `json:"input"`
 		}
-		if json.Unmarshal(b, &sc) == nil && (sc.Input.Scenario == "shared-timer" || sc.Input.Scenario == "deadline-neighbour") {
+		if json.Unmarshal(b, &sc) == nil && (sc.Input.Scenario == "shared-timer" || sc.Input.Scenario == "deadline-neighbour" || sc.Input.Scenario == "slow-resume") {
 			d := runScen(sc.Input.Scenario, sc.Input.Arg, sc.Input.Ms)
 			w.Add(coqfmt.Case{Term: "mkIsoCase []", Input: sc.Input, Kind: sc.Input.Scenario, Direct: d, Nontrivial: true})
 			if err := w.Flush(*seed, *tier, "replay of a timer/deadline scenario", false, nil); err != nil {
@@ -1307,6 +1506,7 @@ func main() {
 		}
 		scens := []scen{{"shared-timer", "default-close", 0}, {"shared-timer", "default-three-close", 0}, {"shared-timer", "sameobj-close", 0},
 			{"shared-timer", "default-resume-close", 0},
+			{"slow-resume", "downstream-withheld", 0}, {"slow-resume", "upstream-withheld", 0}, {"slow-resume", "upstream-conflict", 0},
 			{"deadline-neighbour", "open-upstream", 150}, {"deadline-neighbour", "open-downstream", 120}, {"deadline-neighbour", "send-metadata", 200}}
 		res := make([]string, len(scens))
 		var swg sync.WaitGroup
@@ -1336,7 +1536,7 @@ func main() {
 				Kind: "dead-downstream-flood", Direct: d, Nontrivial: true, Seed: uint64(flood)})
 		}
 	}
-	rule := "upstreams sharing the library's default flush-policy object (no flush-policy option; real 100 ms ticker) or one policy object passed to all: after a neighbour closes (also after a common outage) a small write to the survivor must still be flushed by its timer; a request (upstream open / downstream open / metadata) with a 120-200 ms deadline left unanswered on a healthy connection must cause no redial, no disconnect/reconnect event, no resume request or event, no retransmission and no cleared store for the neighbours; a downstream whose open was refused (its subscriptions stay registered, nobody reads) is flooded with 40 / 1100 chunks, then a live downstream must still get its chunk and a live upstream its ack; the broker gives the first stream STREAM ALIAS 0 (also after a resume); lifecycle operations of a neighbour happen on the same wire connection: an open refused with a zero alias in the response, a resume refused with a zero alias, an application Close while the neighbour's resume request is still unanswered (its close request travels on the new connection where it has no alias entry) - afterwards the alias-0 stream must still send chunks and receive acks. 2-3 upstreams (the first reliable, the others reliable or unreliable) on one connection: interleaved write+flush, per-stream acks, optional close of one stream, optional outage (loud cut, writes of any stream before it is noticed, all streams resume: unreliable ones answered first), more traffic, closes in random order; each stream's observables are compared with its solo run through the same history. non-trivial = every stream has a solo run to compare with; distinct = distinct Coq case terms"
+	rule := "after an outage the broker withholds one stream's resume answer (a downstream's, an upstream's, or answers an upstream's with conflict three times): meanwhile a new OpenUpstream, a new OpenDownstream and SendBaseTime must succeed within 1.5 s and the sibling reliable upstream must resume and retransmit its unacknowledged chunk; upstreams sharing the library's default flush-policy object (no flush-policy option; real 100 ms ticker) or one policy object passed to all: after a neighbour closes (also after a common outage) a small write to the survivor must still be flushed by its timer; a request (upstream open / downstream open / metadata) with a 120-200 ms deadline left unanswered on a healthy connection must cause no redial, no disconnect/reconnect event, no resume request or event, no retransmission and no cleared store for the neighbours; a downstream whose open was refused (its subscriptions stay registered, nobody reads) is flooded with 40 / 1100 chunks, then a live downstream must still get its chunk and a live upstream its ack; the broker gives the first stream STREAM ALIAS 0 (also after a resume); lifecycle operations of a neighbour happen on the same wire connection: an open refused with a zero alias in the response, a resume refused with a zero alias, an application Close while the neighbour's resume request is still unanswered (its close request travels on the new connection where it has no alias entry) - afterwards the alias-0 stream must still send chunks and receive acks. 2-3 upstreams (the first reliable, the others reliable or unreliable) on one connection: interleaved write+flush, per-stream acks, optional close of one stream, optional outage (loud cut, writes of any stream before it is noticed, all streams resume: unreliable ones answered first), more traffic, closes in random order; each stream's observables are compared with its solo run through the same history. non-trivial = every stream has a solo run to compare with; distinct = distinct Coq case terms"
 	if err := w.Flush(*seed, *tier, rule, false, nil); err != nil {
 		fmt.Fprintln(os.Stderr, err)
 		os.Exit(2)
